@@ -321,6 +321,34 @@ def _check_session(F, S, spec, k, ops, thr):
     return out, nontrivial, info
 
 
+def _shrink_session(case, clause, run_case, budget_s=3.0):
+    """Smallest request list (shortest failing prefix, then greedy removal of single requests) on which `clause`
+    still fails; run_case(case) -> {clause: message}.  Returns (case, message) or (case, None) if not reproducible."""
+    t0 = time.time()
+    ops = list(case["ops"])
+
+    def bad(o):
+        return clause in run_case(dict(case, ops=o))
+
+    lo, hi = 1, len(ops)
+    while lo < hi and time.time() - t0 < budget_s:
+        mid = (lo + hi) // 2
+        if bad(ops[:mid]):
+            hi = mid
+        else:
+            lo = mid + 1
+    ops = ops[:hi]
+    j = len(ops) - 2
+    while j >= 0 and time.time() - t0 < budget_s:
+        cand = ops[:j] + ops[j + 1 :]
+        if bad(cand):
+            ops = cand
+        j -= 1
+    small = dict(case, ops=ops)
+    msg = run_case(small).get(clause)
+    return (small, msg) if msg is not None else (case, None)
+
+
 def _session_ops(w0, rng, wcap):
     """Requests for one filter: each buffer width w is asked for around half=True requests whose output has the
     same length w (DFT widths 2(w-1) and 2w-1), in both orders, repeated, with truncated / impulse requests in
@@ -629,7 +657,14 @@ def run(tier, seed):
                 key = (clause, spec["bank"])
                 dup[key] = dup.get(key, 0) + 1
                 if dup[key] <= 2:
-                    col.fail(clause, case, msg)
+                    small, m = _shrink_session(case, clause, lambda c: dict(_check_session(F, S, c["bank"], c["filt"], c["ops"], thr)[0]))
+                    if m is not None and len(small["ops"]) == 1 and small["ops"][0][0] == "check":
+                        # not a matter of history: report the plain (filter, width) case if it fails on its own
+                        plain = {"bank": spec, "filt": k, "width": int(small["ops"][0][1])}
+                        pf = dict(_check(_build(F, S, spec), spec, k, plain["width"], thr)[0])
+                        if clause in pf:
+                            small, m = plain, pf[clause]
+                    col.fail(clause, small, m if m is not None else msg)
 
     phase_t['sessions'] = time.time() - t_c
     # --- D. the grid -----------------------------------------------------------------------------------------
@@ -679,7 +714,10 @@ def run(tier, seed):
         bound=(
             f"BOUNDED ({tier}): zero-phase banks and gammatone order in {{3,4,6}} without L2 scaling; 4 scales x rates {{8k,16k,44.1k}} x num_filts "
             f"{'{2,6,11}' if quick else '{1,2,6,11,40}'} x 3 ranges x flags ({len(grid)} configurations, seeded class-interleaved order within the time budget, every 5th a seeded random "
-            f"configuration with order 3..8{'' if quick else ', then random configurations until the budget is used'}); all filters of a bank (n <= 11), else ends, middle and 2 random; buffer widths <= {wcap}"
+            f"configuration with order 3..8{'' if quick else ', then random configurations until the budget is used'}); all filters of a bank (n <= 11), else ends, middle, 2 random and (triangular) up to 3 left-heavy ones; buffer widths <= {wcap}.  "
+            f"Before the grid: the {len(defaults)} default configurations (40 filters, 16 kHz, 20 Hz..Nyquist; every bank class x scale; all filters at w0, w0+1, 2 w0, a subset at 4 w0), "
+            f"triangular Bark banks (8 kHz with 16..18 filters: all filters; num_filts 3..{ns[-1]} at 8 / 16 kHz real and analytic plus seeded ranges / rates: the filters straddling a break point of the scale and a neighbour), "
+            f"and sessions of ~27 requests on one bank object (buffer widths w0, w0+1 and two seeded ones <= 3 w0, each around half=True requests of the same output length) for the core and default banks with 3 w0 <= {sess_cap}"
         ),
         assumptions=ASSUMPTIONS,
     )
